@@ -30,8 +30,10 @@ Inductive spec :=
 | SSpec (s : spec) (sc : list (string * val))
 | SPipe (ss : list spec)
 | SCoalesce (ss : list spec) (default : option spec) (factory : option fn) (skip : option val) (skip_exc : option (list string))
-| SCall (f : spec) (args : list spec)
-| SInvoke (f : spec) (parts : list (bool * list spec))   (* (true, specs) | (false, constants as SLit) *)
+| SCall (f : spec) (args : list spec) (kw : list (string * spec))
+| SInvoke (f : spec) (parts : list (nat * list spec * list (string * spec)))
+      (* per part, in the order given: (0, constants, keyword constants) as SLit / SStr | (1, specs, keyword specs) |
+         (2, [args spec]?, [("", kwargs spec)]?) for .star(args=, kwargs=) *)
 | SRef (name : string) (sub : option spec)
 | SFill (s : spec) | SAuto (s : spec)
 | SMatch (s : spec) (default : option spec)
@@ -119,6 +121,22 @@ Definition call_logged (f : val) (args : list val) : M val :=
                | VFun (FProbe n), [x] => mkState (log st ++ [(n, x)]) (store st)
                | _, _ => st end in
     (call_val f args, st').
+
+Definition call_logged_kw (f : val) (args : list val) (kw : list (string * val)) : M val :=
+  match kw with [] => call_logged f args | _ => fun st => (call_kw f args kw, st) end.
+(* dict.update on keyword names: a name already present keeps its position *)
+Fixpoint kw_set (k : string) (v : val) (l : list (string * val)) : list (string * val) :=
+  match l with
+  | [] => [(k, v)]
+  | (k', v') :: r => if String.eqb k k' then (k, v) :: r else (k', v') :: kw_set k v r end.
+Definition kw_update (l new : list (string * val)) : list (string * val) := fold_left (fun acc kv => kw_set (fst kv) (snd kv) acc) new l.
+(* the keyword arguments a ** dict contributes: every key must be a str (checked by the call itself) *)
+Fixpoint kw_of_dict (kvs : list (val * val)) : option (list (string * val)) :=
+  match kvs with
+  | [] => Some []
+  | (VStr k, v) :: r => match kw_of_dict r with Some l => Some ((k, v) :: l) | None => None end
+  | _ => None end.
+Definition const_of (s : spec) : list val := match s with SLit v => [v] | SStr k => [VStr k] | _ => [] end.
 
 Definition truthy_res (v : val) : bool := truthy v.
 
@@ -319,14 +337,46 @@ Fixpoint let_loop (sc : scope) (t : val) (bs : list (string * spec)) : M (list (
   match bs with
   | [] => ret []
   | (k, a) :: r => let! (v, _) := rec sc t a in let! vs := let_loop sc t r in ret ((k, v) :: vs) end.
-(* Invoke: constants as they are, specs evaluated *)
-Fixpoint invoke_loop (sc : scope) (t : val) (parts : list (bool * list spec)) : M (list val) :=
-  match parts with
+(* Invoke: the parts in the order given; constants as they are, specs evaluated (positional ones first, then the keyword ones);
+   a keyword name given again by a LATER constants() / specs() call is not evaluated at the earlier position at all
+   (_cur_kwargs[k] is kwargs); star parts are evaluated and spliced in where they stand *)
+Fixpoint kw_loop (sc : scope) (t : val) (kw : list (string * spec)) : M (list (string * val)) :=
+  match kw with
   | [] => ret []
-  | (true, ss) :: r => let! xs := each_loop sc t ss in let! ys := invoke_loop sc t r in ret (xs ++ ys)
-  | (false, ss) :: r =>
-      let! ys := invoke_loop sc t r in
-      ret (flat_map (fun s => match s with SLit v => [v] | SStr k => [VStr k] | _ => [] end) ss ++ ys)
+  | (k, s) :: r => let! (v, _) := rec sc t s in let! vs := kw_loop sc t r in ret ((k, v) :: vs) end.
+Definition later_names (parts : list (nat * list spec * list (string * spec))) : list string :=
+  flat_map (fun p => match p with (tag, _, kw) => if Nat.ltb tag 2 then map fst kw else [] end) parts.
+Definition live_kw {B} (later : list string) (kw : list (string * B)) : list (string * B) :=
+  filter (fun kv => negb (existsb (String.eqb (fst kv)) later)) kw.
+Fixpoint invoke_loop (sc : scope) (t : val) (parts : list (nat * list spec * list (string * spec)))
+                     (accA : list val) (accK : list (string * val)) : M (list val * list (string * val)) :=
+  match parts with
+  | [] => ret (accA, accK)
+  | (0, ss, kw) :: r =>
+      let live := live_kw (later_names r) kw in
+      invoke_loop sc t r (accA ++ flat_map const_of ss)
+                  (kw_update accK (flat_map (fun kv => map (fun v => (fst kv, v)) (const_of (snd kv))) live))
+  | (1, ss, kw) :: r =>
+      let! xs := each_loop sc t ss in
+      let! ks := kw_loop sc t (live_kw (later_names r) kw) in
+      invoke_loop sc t r (accA ++ xs) (kw_update accK ks)
+  | (_, ss, kw) :: r =>
+      let! xs := (match ss with
+                  | [] => ret []
+                  | a :: _ => let! (v, _) := rec sc t a in
+                              match v with
+                              | VList _ l | VTuple _ l => ret l
+                              | VDict _ _ kvs => ret (map fst kvs)
+                              | VNone | VBool _ | VInt _ | VObj _ _ _ | VFun _ => type_err
+                              | _ => unmodelled "star-args" end end) in
+      let! ks := (match kw with
+                  | [] => ret []
+                  | (_, a) :: _ => let! (v, _) := rec sc t a in
+                                   match v with
+                                   | VDict _ _ kvs => match kw_of_dict kvs with Some l => ret l | None => unmodelled "star-kwargs-key" end
+                                   | VNone | VBool _ | VInt _ | VObj _ _ _ | VFun _ => type_err
+                                   | _ => unmodelled "star-kwargs" end end) in
+      invoke_loop sc t r (accA ++ xs) (kw_update accK ks)
   end.
 (* Optional(key, default=...) entries of a match-dict spec whose key is absent from the result *)
 Fixpoint optional_defaults (own : frame) (sc : scope) (t : val) (es : list (spec * spec)) (res : list (val * val))
@@ -488,12 +538,18 @@ Definition glom_body (rec : recfn) (sc : scope) (t : val) (s : spec) : M (val * 
             | None, Some f => let! v := call_logged (VFun f) [] in ret (v, own)
             | None, None => fail (simple_exn "CoalesceError") end
         end)
-  | SCall f args =>
+  | SCall f args kw =>
       glomit (fun own =>
         let! fv := arg_val_i rec own sc t f in
         let! av := arg_val_i rec own sc t (STuple args) in
+        let! kv := (match kw with
+                    | [] => ret []
+                    | _ => let! d := arg_val_i rec own sc t (SDict false (map (fun kv => (SStr (fst kv), snd kv)) kw)) in
+                           match d with
+                           | VDict _ _ kvs => match kw_of_dict kvs with Some l => ret l | None => unmodelled "call-kwargs" end
+                           | _ => unmodelled "call-kwargs" end end) in
         match av with
-        | VTuple _ vs => let! v := call_logged fv vs in ret (v, own)
+        | VTuple _ vs => let! v := call_logged_kw fv vs kv in ret (v, own)
         | _ => unmodelled "call-args" end)
   | SInvoke f parts =>
       glomit (fun own =>
@@ -501,8 +557,8 @@ Definition glom_body (rec : recfn) (sc : scope) (t : val) (s : spec) : M (val * 
                     | ST _ _ | SSpec _ _ => let! (v, _) := rec (own :: sc) t f in ret v
                     | SFn g => ret (VFun g)
                     | _ => unmodelled "invoke-func" end) in
-        let! vs := invoke_loop rec (own :: sc) t parts in
-        let! v := call_logged fv vs in ret (v, own))
+        let! (vs, ks) := invoke_loop rec (own :: sc) t parts [] [] in
+        let! v := call_logged_kw fv vs ks in ret (v, own))
   | SRef name sub =>
       glomit (fun own =>
         match sub with
